@@ -2,7 +2,8 @@
 
 A case: {"op": "cluster.run", "kind": …, "host": creator host, "breakStale": bool,
          "jobs": [{"blockers": [ids], "cancel": bool}], "ops": [op, …]}      (≤ 40 ops, ≤ 4 handles, ≤ 3 hosts)
-ops: see `parseClusterOp` in lean/Driver/Cluster.lean.
+ops: see `parseClusterOp` / `parseClusterXOp` in lean/Driver/Cluster.lean; `{"k": "crash", "op": <api op>, "after": k, "lockGone": b}`
+kills the process performing `op` right before its (k+1)-th file write (see suites/cluster.py).
 
 `Sim` is a light-weight stand-in for a sequence of submitter rounds; it only serves to produce operation sequences that
 respect the role protocol and carry well-formed `update_job_status` arguments (as HpcSubmitter.run produces them).  Whether
@@ -290,6 +291,9 @@ def chaos_ops(rng, n, break_stale, length):
             ops.append({"k": k})
         else:
             ops.append({"k": k, "h": h})
+        if ops and rng.random() < .12 and ops[-1]["k"] in ("load", "promote", "demote", "update", "markComplete", "markCanceled",
+                                                            "completeHpcId", "prepareResubmit"):
+            ops[-1] = crash_of(rng, ops[-1])
     return ops
 
 
@@ -307,13 +311,81 @@ def stale_write(rng, h, n, sim):
     return {"k": k, "h": h}
 
 
+def crash_of(rng, inner):
+    """the process performing `inner` is killed before its (k+1)-th file write; one lock section writes at most four files"""
+    return {"k": "crash", "op": inner, "after": rng.choice([0, 1, 1, 1, 1, 2, 2, 3]), "lockGone": rng.random() < .7}
+
+
+def crash_case_ops(rng, jobs, host, brk):
+    """A writer dies between the file writes of one lock hold; then OTHER handles act: one loaded long before (out of date
+    by then), one loaded right before the crash (up to date until the dying writer's first write), and fresh ones."""
+    n = len(jobs)
+    early = rng.random() < .8
+    pre = [{"k": "load", "h": 3, "host": rng.randrange(3), "promote": False, "jobs": rng.random() < .8}] if early else []
+    ops, sim = protocol_ops(rng, jobs, host, brk, resubmit=rng.random() < .3, budget=rng.randrange(2, 22))
+    ops = [o for o in pre + ops if not (o["k"] == "load" and o["h"] == 3 and o not in pre)]
+    others = [3] if early else []
+    if sim.holder != 0:
+        others.append(0)        # the creator's handle after it gave up the role
+    victim = sim.holder
+    if rng.random() < .6:
+        late = rng.choice([s for s in (1, 2) if s != sim.holder])
+        ops.append({"k": "load", "h": late, "host": rng.randrange(3), "promote": False, "jobs": rng.random() < .7})
+        others.append(late)
+    if sim.holder is not None:
+        a = sim.holder
+        r = rng.random()
+        subs = [j for j in range(n) if sim.state[j] == "n" and not sim.rem[j]][:2]
+        comp = [j for j in range(n) if sim.state[j] == "s"][:1]
+        if r < .3:
+            inner = {"k": "demote", "h": a}
+        elif r < .65:
+            inner = upd(a, subs, [], [], comp, sim.hpc + ([sim.next_hpc] if subs else []), sim.batch + (1 if subs else 0))
+        elif r < .75:
+            inner = {"k": "markCanceled", "h": a}
+        elif r < .85 and sim.hpc:
+            inner = {"k": "completeHpcId", "h": a, "id": sim.hpc[0]}
+        elif not sim.complete:
+            inner = {"k": "markComplete", "h": a}
+        else:
+            inner = {"k": "prepareResubmit", "h": a, "sel": [j for j in range(n) if rng.random() < .6], "blockers": []}
+    else:
+        victim = rng.choice([s for s in (1, 2) if s not in others])
+        inner = {"k": "load", "h": victim, "host": rng.randrange(3), "promote": True, "jobs": True}
+    ops.append(crash_of(rng, inner))
+    if rng.random() < .6:
+        ops.append({"k": "breakMarker"})
+    free = [s for s in (1, 2) if s not in others] or [1]
+    for _ in range(rng.randrange(2, 8)):
+        r = rng.random()
+        if r < .45 and others:
+            ops.append(stale_write(rng, rng.choice(others), n, sim))
+        elif r < .6:
+            ops.append({"k": "load", "h": rng.choice(free), "host": rng.randrange(3), "promote": True, "jobs": True})
+        elif r < .68:
+            ops.append({"k": "read"})
+        elif r < .8:
+            ops.append({"k": "breakMarker"})
+        elif r < .9 and others:
+            ops.append(crash_of(rng, stale_write(rng, rng.choice(others), n, sim)))
+        else:
+            z = rng.choice(free)
+            ops.append({"k": "load", "h": z, "host": rng.randrange(3), "promote": False, "jobs": rng.random() < .7})
+            if z not in others:
+                others.append(z)
+    return ops
+
+
 def gen_case(rng):
     jobs = gen_jobs(rng)
     n = len(jobs)
     host = rng.randrange(3)
     brk = rng.random() < .6
-    kind = rng.choice(["protocol", "protocol", "protocol", "resubmit", "resubmit", "stale", "stale", "stale", "jsstale", "samehost", "chaos", "chaos"])
-    if kind == "protocol":
+    kind = rng.choice(["protocol", "protocol", "protocol", "resubmit", "resubmit", "stale", "stale", "stale", "jsstale", "samehost", "chaos", "chaos",
+                       "crash", "crash", "crash", "crash"])
+    if kind == "crash":
+        ops = crash_case_ops(rng, jobs, host, brk)
+    elif kind == "protocol":
         ops, _ = protocol_ops(rng, jobs, host, brk)
     elif kind == "resubmit":
         ops, _ = protocol_ops(rng, jobs, host, brk, resubmit=True)
@@ -418,6 +490,26 @@ def witness_cases():
         out.append({"op": "cluster.run", "kind": "witness.marker", "host": 1, "breakStale": brk, "jobs": two, "ops": [
             upd(0, [0, 0], [], [], [], [], 1), {"k": "read"}, {"k": "load", "h": 1, "host": 2, "promote": True, "jobs": True},
             {"k": "breakMarker"}, {"k": "read"}, {"k": "demote", "h": 0}, {"k": "load", "h": 1, "host": 2, "promote": True, "jobs": True}]})
+    # a process dies between the two file writes of its promotion; a handle loaded before that must be refused, whatever
+    # the lock library did with the dead process's marker; and the same for a dying holder's update (4 writes) and demote
+    for after in (0, 1, 2):
+        for gone in (True, False):
+            out.append({"op": "cluster.run", "kind": "witness.crash_promote", "host": 0, "breakStale": True, "jobs": two, "ops": [
+                {"k": "demote", "h": 0}, {"k": "load", "h": 1, "host": 1, "promote": False, "jobs": True},
+                {"k": "crash", "op": {"k": "load", "h": 2, "host": 2, "promote": True, "jobs": True}, "after": after, "lockGone": gone},
+                {"k": "breakMarker"}, {"k": "promote", "h": 1}, {"k": "breakMarker"}, {"k": "markCanceled", "h": 0}, {"k": "breakMarker"},
+                {"k": "load", "h": 3, "host": 1, "promote": True, "jobs": True}, {"k": "read"}]})
+    for after in (0, 1, 2, 3, 4):
+        out.append({"op": "cluster.run", "kind": "witness.crash_update", "host": 0, "breakStale": True, "jobs": two, "ops": [
+            {"k": "load", "h": 1, "host": 1, "promote": False, "jobs": True},
+            {"k": "crash", "op": upd(0, [0], [], [], [], [1], 2), "after": after, "lockGone": True},
+            upd(1, [1], [], [], [], [2], 2), {"k": "breakMarker"}, {"k": "completeHpcId", "h": 1, "id": 1}, {"k": "breakMarker"},
+            {"k": "load", "h": 2, "host": 0, "promote": False, "jobs": True}, {"k": "demote", "h": 2}, {"k": "read"}]})
+    for after in (0, 1):
+        out.append({"op": "cluster.run", "kind": "witness.crash_demote", "host": 0, "breakStale": True, "jobs": two, "ops": [
+            {"k": "load", "h": 1, "host": 1, "promote": False, "jobs": False},
+            {"k": "crash", "op": {"k": "demote", "h": 0}, "after": after, "lockGone": True},
+            {"k": "load", "h": 2, "host": 2, "promote": True, "jobs": True}, {"k": "promote", "h": 1}, {"k": "read"}]})
     # canceled chain reported the way a round does it
     three = [{"blockers": [], "cancel": False}, {"blockers": [0], "cancel": True}, {"blockers": [1], "cancel": True}]
     out.append({"op": "cluster.run", "kind": "witness.cancel_chain", "host": 0, "breakStale": True, "jobs": three, "ops": [
